@@ -43,7 +43,8 @@ func vProdScenario(mode int) vProdCfg {
 		// a slow broker: the first request is answered only after everything was submitted
 		c.holdFirst = vChoose("slowFirstResponse", 2) == 1
 	}
-	vClass(vSprintf("retryMax=%d,topology=%d,idem=%v,flush=%d", c.retryMax, topo, c.idem, flush))
+	c.class = vSprintf("retryMax=%d,topology=%d,idem=%v,flush=%d", c.retryMax, topo, c.idem, flush)
+	vClass(c.class)
 	return c
 }
 
